@@ -92,7 +92,8 @@ def readHead : List UInt8 → Option (Nat × Nat × List UInt8)
 def bytesToStringOpt (bs : List UInt8) : Option String := String.fromUTF8? (ByteArray.mk bs.toArray)
 
 mutual
-/-- decode one item; `fuel` bounds the nesting / number of items (any value ≥ the input length suffices) -/
+/-- decode one item; `fuel` bounds the nesting / number of items: an array level costs two units (one
+for the item, one per element position), so twice the input length suffices -/
 def decodeItem : Nat → List UInt8 → Option (Cbor × List UInt8)
   | 0, _ => none
   | fuel + 1, bs =>
@@ -134,9 +135,37 @@ end
 
 /-- decode a complete message: exactly one item, no trailing bytes -/
 def decode (bs : List UInt8) : Option Cbor :=
-  match decodeItem (bs.length + 1) bs with
+  match decodeItem (2 * bs.length + 1) bs with
   | some (x, []) => some x
   | _ => none
+
+/-! ### well-formed items: what the encoder emits (arguments below 2^64, the three simple values) -/
+
+mutual
+/-- every head argument fits 64 bits and every simple value is false / true / null -/
+def wf : Cbor → Bool
+  | .uint n => decide (n < 2 ^ 64)
+  | .nint n => decide (n < 2 ^ 64)
+  | .bytes bs => decide (bs.length < 2 ^ 64)
+  | .text s => decide (s.toUTF8.data.toList.length < 2 ^ 64)
+  | .arr xs => decide (xs.length < 2 ^ 64) && wfList xs
+  | .tag t v => decide (t < 2 ^ 64) && wf v
+  | .simple n => n == 20 || n == 21 || n == 22
+def wfList : List Cbor → Bool
+  | [] => true
+  | x :: xs => wf x && wfList xs
+end
+
+mutual
+/-- fuel that `decodeItem` needs for the encoding of an item -/
+def need : Cbor → Nat
+  | .arr xs => needList xs + 1
+  | .tag _ v => need v + 1
+  | _ => 1
+def needList : List Cbor → Nat
+  | [] => 0
+  | x :: xs => max (need x) (needList xs) + 1
+end
 
 end Cbor
 end Verif.Model.Codec
